@@ -5,6 +5,7 @@ COQ = os.path.join(ROOT, "coq")
 HARNESS = os.path.join(ROOT, "harness")
 BUILD = os.path.join(ROOT, ".build")
 REPO = os.environ.get("VERIF_REPO", "/repo")
+RUNDIR = os.path.join(BUILD, "run" if REPO == "/repo" else "run_scratch")
 GOENV = dict(GOWORK="off", GOFLAGS="-mod=mod", GOPROXY="off", GOSUMDB="off", GOTOOLCHAIN="local")
 COQFLAGS = ["-Q", os.path.join(COQ, "Model"), "Model", "-Q", os.path.join(COQ, "Proofs"), "Proofs",
             "-Q", os.path.join(COQ, "Properties"), "Properties"]
@@ -136,7 +137,7 @@ def build_harness():
     return rc, out
 
 
-def run_shards(outdir, shards, jobs=16):
+def run_shards(outdir, shards, jobs=12):
     """evaluate every case file with coqc (vm_compute inside); returns list of mismatches"""
     procs = []
     results = {}
@@ -146,15 +147,18 @@ def run_shards(outdir, shards, jobs=16):
     while pending or running:
         while pending and len(running) < jobs:
             s = pending.pop(0)
+            # stdout goes to a file: a pipe that is only read after exit blocks coqc once `Print M` exceeds 64 KB
+            fo = open(os.path.join(outdir, s + ".out"), "w")
             p = subprocess.Popen(["timeout", "1700", "coqc", "-noglob"] + COQFLAGS + [s], cwd=outdir,
-                                 stdout=subprocess.PIPE, stderr=subprocess.STDOUT, text=True, env=env)
+                                 stdout=fo, stderr=subprocess.STDOUT, text=True, env=env)
+            fo.close()
             running.append((s, p))
         still = []
         for s, p in running:
             if p.poll() is None:
                 still.append((s, p))
             else:
-                results[s] = (p.returncode, p.stdout.read())
+                results[s] = (p.returncode, open(os.path.join(outdir, s + ".out")).read())
         running = still
         if running:
             time.sleep(0.05)
@@ -162,8 +166,14 @@ def run_shards(outdir, shards, jobs=16):
     errors = []
     for s in shards:
         rc, out = results[s]
+        if rc != 0 and "Error" not in out:
+            # killed (memory pressure when many shards run at once) or timed out: retry once, alone
+            p = subprocess.run(["timeout", "3400", "coqc", "-noglob"] + COQFLAGS + [s], cwd=outdir,
+                               stdout=subprocess.PIPE, stderr=subprocess.STDOUT, text=True, env=env)
+            rc, out = p.returncode, p.stdout
+            results[s] = (rc, out)
         if rc != 0:
-            errors.append((s, out[-3000:]))
+            errors.append((s, "rc=%d\n%s" % (rc, out[-3000:])))
             continue
         m = re.search(r"M\s*=\s*(.*?)\n\s*:\s*list", out, flags=re.S)
         if not m:
@@ -266,7 +276,7 @@ def run_check(prop, tier, seed, replay=None):
             harness_broken = out[-4000:]
         else:
             for st in cfg["streams"]:
-                outdir = os.path.join(BUILD, "run", prop, st)
+                outdir = os.path.join(RUNDIR, prop, st)
                 shutil.rmtree(outdir, ignore_errors=True)
                 os.makedirs(outdir)
                 cmd = [os.path.join(BUILD, "harness"), st, "-seed", str(seed), "-tier", tier, "-out", outdir]
@@ -297,6 +307,33 @@ def run_check(prop, tier, seed, replay=None):
                 k = open_sigs.get(kc["id"])
                 if k and kc["still_fails"]:
                     known_lines.append("KNOWN-FINDING: property=%s %s" % (prop, k["what"]))
+        # extended search: a proof obligation or the correspondence broke but no monitor has a failing input yet ->
+        # run the model-free monitors on a larger, differently seeded budget against the real code
+        extended = None
+        if (mism_all or proof_broken) and not mon_viol and not harness_broken and not replay:
+            extended = dict(runs=0, cases=0)
+            budget = [("thorough", seed + 1000)] if tier == "quick" else [("thorough", seed + 1000), ("thorough", seed + 2000)]
+            for (xt, xs) in budget:
+                for st in cfg["streams"]:
+                    outdir = os.path.join(RUNDIR, prop, st + "_extended")
+                    shutil.rmtree(outdir, ignore_errors=True)
+                    os.makedirs(outdir)
+                    try:
+                        rc, out = sh(["timeout", "900", os.path.join(BUILD, "harness"), st, "-seed", str(xs), "-tier", xt, "-out", outdir],
+                                     cwd=outdir, timeout=1000)
+                    except subprocess.TimeoutExpired:
+                        rc = 124
+                    if rc != 0 or not os.path.exists(os.path.join(outdir, "report.json")):
+                        continue
+                    xrep = json.load(open(os.path.join(outdir, "report.json")))
+                    extended["runs"] += 1; extended["cases"] += xrep["cases"]
+                    for v in xrep["violations"]:
+                        if v["signature"] not in open_sigs:
+                            v = dict(v); v["found_by"] = "extended search (seed %d, tier %s)" % (xs, xt)
+                            mon_viol.append(v)
+                    shutil.rmtree(outdir, ignore_errors=True)
+                if mon_viol:
+                    break
         for v in mon_viol[:5]:
             v = dict(v); v["tier"] = tier
             p = write_replay(prop, "monitor_%s_%d_%d" % (re.sub(r"\W", "_", v["signature"]), v["case"], v["step"]), v)
@@ -352,7 +389,7 @@ def run_check(prop, tier, seed, replay=None):
                 rule="; ".join(rules), samples=samples[:4],
                 traces_validated_against_impl=evals, correspondence_mismatches=len(mism_all),
                 monitor_violations=len(mon_viol), input_distribution=hist,
-                exhaustive_part=exhaustive, notes=notes, coqchk=coqchk,
+                exhaustive_part=exhaustive, notes=notes, coqchk=coqchk, extended_search=extended,
                 explanation="theorems about the Gallina model proved for all inputs/histories; the model is tied to /repo's working tree by "
                             "re-executing every generated operation sequence on the real keepers and on the model (vm_compute) and comparing projected observables",
             ),
